@@ -25,7 +25,13 @@ def _bencode(data: typing.Union[int, bytes, bytearray, str, list, tuple, dict]) 
         raise TypeError(f"Cannot bencode {type(data)}")
 
 
-def _bdecode(data: bytes, start_index: int = 0) -> typing.Tuple[typing.Union[int, bytes, list, tuple, dict], int]:
+MAX_DECODE_DEPTH = 64  # protocol messages nest four levels deep
+
+
+def _bdecode(data: bytes, start_index: int = 0,
+             depth: int = 0) -> typing.Tuple[typing.Union[int, bytes, list, tuple, dict], int]:
+    if depth > MAX_DECODE_DEPTH:
+        raise DecodeError("nesting too deep")
     if start_index >= len(data):
         raise DecodeError("unexpected end of data")
     if data[start_index] == ord('i'):
@@ -41,7 +47,7 @@ def _bdecode(data: bytes, start_index: int = 0) -> typing.Tuple[typing.Union[int
                 raise DecodeError("unterminated list")
             if data[start_index] == ord('e'):
                 break
-            list_data, start_index = _bdecode(data, start_index)
+            list_data, start_index = _bdecode(data, start_index, depth + 1)
             decoded_list.append(list_data)
         return decoded_list, start_index + 1
     elif data[start_index] == ord('d'):
@@ -52,8 +58,8 @@ def _bdecode(data: bytes, start_index: int = 0) -> typing.Tuple[typing.Union[int
                 raise DecodeError("unterminated dict")
             if data[start_index] == ord('e'):
                 break
-            key, start_index = _bdecode(data, start_index)
-            value, start_index = _bdecode(data, start_index)
+            key, start_index = _bdecode(data, start_index, depth + 1)
+            value, start_index = _bdecode(data, start_index, depth + 1)
             decoded_dict[key] = value
         return decoded_dict, start_index + 1
     else:
